@@ -9,7 +9,7 @@ pub fn kind_code(kind: &str) -> i64 {
         "load" => 0, "store" => 1, "faa" => 2, "cas" => 3, "swap" => 4, "fas" => 5,
         "slot_write" => 6, "slot_read" => 7, "fence" => 9,
         "wake" => 10, "parked" => 11, "wakers_read" => 12, "wakers_write" => 13, "keep_read" => 14, "keep_write" => 15,
-        "used_read" => 16, "used_write" => 17,
+        "used_read" => 16, "used_write" => 17, "drop" => 18,
         _ => 8,
     }
 }
